@@ -176,15 +176,19 @@ static inline size_t
 tpt_msg_active_thr_count_dec(tpt_msg_data_p msg_data, tpt_p src,
     size_t dec) {
 	size_t tm;
+	tpt_msg_done_cb done_cb;
 
 	/* Additional data handling. */
 	MTX_LOCK(&msg_data->lock);
 	msg_data->active_thr_count -= dec;
 	tm = msg_data->active_thr_count;
+	/* Read before unlock: in the TP_BMSG_F_SYNC form msg_data lives on the
+	 * caller's stack and the caller may return as soon as it sees 0. */
+	done_cb = msg_data->done_cb;
 	MTX_UNLOCK(&msg_data->lock);
 
 	if (0 != tm ||
-	    NULL == msg_data->done_cb)
+	    NULL == done_cb)
 		return (tm); /* There is other alive threads. */
 	/* This was last thread, so we need do call back done handler. */
 	tpt_msg_send(msg_data->tpt, src,
